@@ -16,7 +16,7 @@ def patch_head(data, node, new_arg, width=None):
     return data[:node.start] + cbor.enc_head(node.major, new_arg, width) + data[node.start + hl:]
 
 
-KINDS = ['field_boundary', 'uint_boundary', 'len_lie_container', 'len_lie_string', 'major_flip', 'nest_array', 'nest_indef', 'nest_map', 'nest_tag',
+KINDS = ['field_boundary', 'array_head_boundary', 'maxitems_and_len', 'uint_boundary', 'len_lie_container', 'len_lie_string', 'major_flip', 'nest_array', 'nest_indef', 'nest_map', 'nest_tag',
          'truncate', 'tps_zero', 'time_huge', 'name_garbage', 'byte_flip', 'byte_insert', 'byte_delete', 'dup_key', 'splice',
          'random_bytes', 'empty', 'ai_reserved', 'indef_unterminated', 'huge_string_head']
 
@@ -33,6 +33,46 @@ def mutate(r, data, kind=None):
     def pick(pred):
         c = [n for n in nodes if pred(n)]
         return r.choice(c) if c else None
+    if kind in ('array_head_boundary', 'maxitems_and_len'):
+        # the declared length of one array, chosen uniformly over the KINDS of arrays the schema knows (block-parameter list,
+        # each table, each item array, opcode / rr-type / vlan lists, index lists ...), not over instances
+        from . import cdns_schema
+        try:
+            doc = cdns_schema.parse(data)
+        except Exception:
+            return kind, data
+        classes = {}
+        maxnodes = []
+        for n in cbor.walk(doc.root):
+            if n.major == MAP and n.ann:
+                for k, v in n.value:
+                    if v.major == ARRAY and not v.indef:
+                        classes.setdefault((n.ann, k.value), []).append(v)
+                        if n.ann in ('BlockTables',):
+                            for c in v.value:
+                                if c.major == ARRAY and not c.indef:
+                                    classes.setdefault((n.ann, k.value, 'inner'), []).append(c)
+                    if n.ann == 'StorageParameters' and k.value == 1 and v.major == UINT:
+                        maxnodes.append(v)
+        if doc.blocks_node is not None and not doc.blocks_node.indef:
+            classes[('File', 'blocks')] = [doc.blocks_node]
+        if not classes:
+            return kind, data
+        if kind == 'maxitems_and_len':
+            # a huge max-block-items (a natural clamp for a reservation) together with a lying item-array length
+            cls = [c for c in classes if c[0] == 'Block' and c[1] in (3, 4, 5)]
+            if not cls or not maxnodes:
+                return kind, data
+            target = r.choice(classes[r.choice(cls)])
+            edits = [(m.start, m.end, cbor.enc_head(0, r.choice([2 ** 40, 2 ** 62, 2 ** 64 - 1, 2 ** 32]))) for m in maxnodes]
+            edits.append((target.start, target.start + head_len(data, target.start), cbor.enc_head(4, r.choice([2 ** 28, 2 ** 32, 2 ** 40, 2 ** 62, 2 ** 64 - 1]))))
+            out = data
+            for a, b, rep in sorted(edits, reverse=True):
+                out = out[:a] + rep + out[b:]
+            return kind, out
+        target = r.choice(classes[r.choice(sorted(classes, key=repr))])
+        real = len(target.value)
+        return kind, patch_head(data, target, r.choice([real + 1, real + 1000, 2 ** 24, 2 ** 28, 2 ** 32, 2 ** 40, 2 ** 62, 2 ** 63, 2 ** 64 - 1]))
     if kind == 'field_boundary':
         # a boundary integer in one NAMED numeric member (schema-aware: every numeric field of every map gets its turn,
         # time offsets / earliest time / tick rate / table indices preferentially)
@@ -42,17 +82,25 @@ def mutate(r, data, kind=None):
         except Exception:
             return kind, data
         cands, hot = [], []
+        by_class = {}
         for n in cbor.walk(doc.root):
             if n.major == MAP and n.ann:
                 for k, v in n.value:
                     if v.major in (UINT, NEG):
                         cands.append(v)
+                        by_class.setdefault((n.ann, k.value), []).append(v)
                         if (n.ann in ('QueryResponse', 'MalformedMessage') and k.value == 0) or (n.ann == 'StorageParameters' and k.value == 0) \
                                 or n.ann in ('BlockPreamble',):
                             hot.append(v)
                     elif v.major == ARRAY and n.ann == 'BlockPreamble':
                         hot += [c for c in v.value if c.major == UINT]
-        pool = hot if (hot and r.random() < 0.5) else cands
+        x = r.random()
+        if hot and x < 0.4:
+            pool = hot
+        elif by_class and x < 0.8:
+            pool = by_class[r.choice(sorted(by_class, key=repr))]      # uniform over member kinds, then over instances
+        else:
+            pool = cands
         if not pool:
             return kind, data
         v = r.choice(pool)
